@@ -192,23 +192,23 @@ scripted server (any answers), capacity evictions at any time. A schedule is any
 specification that also judges the histories recorded on real Sessions (op `trace`). -/
 section Conn
 open PConn Obs C14Conn C14Obs C14Live
-variable {κ : Type} [DecidableEq κ]
+variable {κ : Type} [DecidableEq κ] {b : Bool}
 
 /-- **Every schedule is accepted by the specification** — in particular no schedule contains a `crash`
     (nil dereference in evictPreparedID) and every enabledness condition of `Obs` (the clauses below) holds
     at every event of every schedule. -/
 theorem C14_conn_refines (as : List (PConn.Action κ)) (s : PConn.State κ) (tr : List (Ev κ))
-    (h : PConn.run PConn.init as = some (s, tr)) : ∃ o, Obs.run Obs.init tr = some o := by
+    (h : PConn.run (PConn.initB b) as = some (s, tr)) : ∃ o, Obs.run (Obs.initB b) tr = some o := by
   obtain ⟨o, h1, _, _⟩ := reachable h
   exact ⟨o, h1⟩
 
 /-- state of the specification just before an event of a schedule's trace -/
 theorem before_event {as : List (PConn.Action κ)} {s : PConn.State κ} {pre post : List (Ev κ)} {e : Ev κ}
-    (h : PConn.run PConn.init as = some (s, pre ++ e :: post)) :
-    ∃ o1 o2, Obs.run Obs.init pre = some o1 ∧ Hist pre o1 ∧ Obs.step o1 e = some o2 := by
+    (h : PConn.run (PConn.initB b) as = some (s, pre ++ e :: post)) :
+    ∃ o1 o2, Obs.run (Obs.initB b) pre = some o1 ∧ Hist pre o1 ∧ Obs.step o1 e = some o2 := by
   obtain ⟨o, ho⟩ := C14_conn_refines as s _ h
-  obtain ⟨o1, o2, h1, h2⟩ := run_split Obs.init pre e post o ho
-  have hH := hist_run pre [] Obs.init o1 hist_init h1
+  obtain ⟨o1, o2, h1, h2⟩ := run_split (Obs.initB b) pre e post o ho
+  have hH := hist_run pre [] (Obs.initB b) o1 (hist_init b) h1
   exact ⟨o1, o2, h1, by simpa using hH, h2⟩
 
 /-- **Ids belong to the statement (and are not superseded).** Whenever, in any schedule, the server receives
@@ -217,7 +217,7 @@ theorem before_event {as : List (PConn.Action κ)} {s : PConn.State κ} {pre pos
     keyspace, statement), with as many bind columns as that entry has bound values (`e.2`), by a flight that
     had not left the cache when the call started / sent its previous frame. -/
 theorem C14_id_belongs (as : List (PConn.Action κ)) (s : PConn.State κ) (pre post : List (Ev κ)) (c : Nat) (ids : List Id) (a : XAns)
-    (h : PConn.run PConn.init as = some (s, pre ++ Ev.exec c ids a :: post)) :
+    (h : PConn.run (PConn.initB b) as = some (s, pre ++ Ev.exec c ids a :: post)) :
     ∃ b es, Ev.start c b es ∈ pre ∧ ids.length = es.length ∧
       ∀ (j : Nat) (e : κ × Nat) (id : Id), es[j]? = some e → ids[j]? = some id →
         ∃ f, Ev.prep f e.1 (some (id, e.2)) ∈ pre ∧ removedBefore pre c f = false := by
@@ -249,11 +249,11 @@ theorem C14_id_belongs (as : List (PConn.Action κ)) (s : PConn.State κ) (pre p
     cache (capacity eviction, failed PREPARE, UNPREPARED): with no removal, one PREPARE however many
     executors there are. -/
 theorem C14_single_flight_conn (as : List (PConn.Action κ)) (s : PConn.State κ) (pre post : List (Ev κ))
-    (h : PConn.run PConn.init as = some (s, pre ++ post)) (k : κ) :
+    (h : PConn.run (PConn.initB b) as = some (s, pre ++ post)) (k : κ) :
     prepCount k pre ≤ rmCount k pre + 1 := by
-  have key : ∀ o1, Obs.run Obs.init pre = some o1 → prepCount k pre ≤ rmCount k pre + 1 := by
+  have key : ∀ o1, Obs.run (Obs.initB b) pre = some o1 → prepCount k pre ≤ rmCount k pre + 1 := by
     intro o1 h1
-    have hH := hist_run pre [] Obs.init o1 hist_init h1
+    have hH := hist_run pre [] (Obs.initB b) o1 (hist_init b) h1
     have := (show Hist pre o1 by simpa using hH).credit k
     omega
   cases post with
@@ -270,7 +270,7 @@ theorem C14_single_flight_conn (as : List (PConn.Action κ)) (s : PConn.State κ
     left the cache when the call started / sent its previous frame (the failure is never served to an
     execution that began after it was known). -/
 theorem C14_failure_not_cached_conn (as : List (PConn.Action κ)) (s : PConn.State κ) (pre post : List (Ev κ)) (c f : Nat)
-    (h : PConn.run PConn.init as = some (s, pre ++ Ev.ret c (.prepErr f) :: post)) :
+    (h : PConn.run (PConn.initB b) as = some (s, pre ++ Ev.ret c (.prepErr f) :: post)) :
     ∃ k b es, Ev.start c b es ∈ pre ∧ hasKey es k = true ∧ Ev.prep f k none ∈ pre ∧ Ev.rm k f ∈ pre ∧
       removedBefore pre c f = false := by
   obtain ⟨o1, o2, _, hH, hs⟩ := before_event h
@@ -297,17 +297,17 @@ theorem C14_failure_not_cached_conn (as : List (PConn.Action κ)) (s : PConn.Sta
     ever given that failure — the next execution prepares again. -/
 theorem C14_failure_not_served_later (as : List (PConn.Action κ)) (s : PConn.State κ) (p1 p2 post : List (Ev κ)) (c c' f : Nat)
     (b : Bool) (es : List (κ × Nat))
-    (h : PConn.run PConn.init as = some (s, p1 ++ Ev.start c b es :: (p2 ++ Ev.ret c (.prepErr f) :: post))) :
+    (h : PConn.run (PConn.initB b) as = some (s, p1 ++ Ev.start c b es :: (p2 ++ Ev.ret c (.prepErr f) :: post))) :
     Ev.ret c' (.prepErr f) ∉ p1 := by
   intro hmem
   -- the earlier report: f had left the cache before it
   obtain ⟨q1, q2, hq⟩ := List.append_of_mem hmem
-  have h1 : PConn.run PConn.init as = some (s, q1 ++ Ev.ret c' (.prepErr f) :: (q2 ++ Ev.start c b es :: (p2 ++ Ev.ret c (.prepErr f) :: post))) := by
+  have h1 : PConn.run (PConn.initB b) as = some (s, q1 ++ Ev.ret c' (.prepErr f) :: (q2 ++ Ev.start c b es :: (p2 ++ Ev.ret c (.prepErr f) :: post))) := by
     rw [h, hq]; simp
   obtain ⟨k, _, _, _, _, _, hrm, _⟩ := C14_failure_not_cached_conn as s _ _ c' f h1
   have hrm1 : Ev.rm k f ∈ p1 := by rw [hq]; exact List.mem_append_left _ hrm
   -- the later report
-  have h2 : PConn.run PConn.init as = some (s, (p1 ++ Ev.start c b es :: p2) ++ Ev.ret c (.prepErr f) :: post) := by
+  have h2 : PConn.run (PConn.initB b) as = some (s, (p1 ++ Ev.start c b es :: p2) ++ Ev.ret c (.prepErr f) :: post) := by
     rw [h]; simp
   obtain ⟨_, _, _, _, _, _, _, hnb⟩ := C14_failure_not_cached_conn as s _ _ c f h2
   rw [removedBefore_of_rm_before_start p1 p2 c f k b es hrm1] at hnb
@@ -316,7 +316,7 @@ theorem C14_failure_not_served_later (as : List (PConn.Action κ)) (s : PConn.St
 /-- **Value count.** A call returns the value-count error only if one of its entries has a different number
     of bound values than the bind columns of a PREPARE answer for that entry's statement … -/
 theorem C14_value_count (as : List (PConn.Action κ)) (s : PConn.State κ) (pre post : List (Ev κ)) (c : Nat)
-    (h : PConn.run PConn.init as = some (s, pre ++ Ev.ret c .countErr :: post)) :
+    (h : PConn.run (PConn.initB b) as = some (s, pre ++ Ev.ret c .countErr :: post)) :
     ∃ b es e f id nc, Ev.start c b es ∈ pre ∧ e ∈ es ∧ Ev.prep f e.1 (some (id, nc)) ∈ pre ∧ nc ≠ e.2 := by
   obtain ⟨o1, o2, _, hH, hs⟩ := before_event h
   simp only [Obs.step] at hs
@@ -423,11 +423,11 @@ theorem after_return {o1 o2 : OState κ} {c : Nat} {out : Outcome} (h2 : Obs.ste
     returned its CONTEXT error may have written one frame just before its context fired, which then reaches the
     server after the return (`C14_late_frame_once`: at most one). -/
 theorem C14_nothing_after_return (as : List (PConn.Action κ)) (s : PConn.State κ) (pre post : List (Ev κ)) (c : Nat) (out : Outcome)
-    (h : PConn.run PConn.init as = some (s, pre ++ Ev.ret c out :: post)) :
+    (h : PConn.run (PConn.initB b) as = some (s, pre ++ Ev.ret c out :: post)) :
     ∀ e ∈ post, (∀ out', e ≠ Ev.ret c out') ∧ (out ≠ .ctxErr → ∀ ids a, e ≠ Ev.exec c ids a) := by
   obtain ⟨o, ho⟩ := C14_conn_refines as s _ h
-  obtain ⟨o1, o2, h1, h2⟩ := run_split Obs.init pre (Ev.ret c out) post o ho
-  have hrest : Obs.run o2 post = some o := rest_run pre _ post Obs.init o1 o o2 h1 ho h2
+  obtain ⟨o1, o2, h1, h2⟩ := run_split (Obs.initB b) pre (Ev.ret c out) post o ho
+  have hrest : Obs.run o2 post = some o := rest_run pre _ post (Obs.initB b) o1 o o2 h1 ho h2
   obtain ⟨cl, g1, g2, g3⟩ := after_return h2
   intro e he
   have := finished_stays c post o2 o cl hrest g1 g2 e he
@@ -436,11 +436,11 @@ theorem C14_nothing_after_return (as : List (PConn.Action κ)) (s : PConn.State 
 /-- after a call returned (whatever it returned) the server receives at most ONE more frame of it -/
 theorem C14_late_frame_once (as : List (PConn.Action κ)) (s : PConn.State κ) (pre p1 p2 : List (Ev κ)) (c : Nat) (out : Outcome)
     (ids : List Id) (a : XAns)
-    (h : PConn.run PConn.init as = some (s, pre ++ Ev.ret c out :: (p1 ++ Ev.exec c ids a :: p2))) :
+    (h : PConn.run (PConn.initB b) as = some (s, pre ++ Ev.ret c out :: (p1 ++ Ev.exec c ids a :: p2))) :
     ∀ e ∈ p2, ∀ ids' a', e ≠ Ev.exec c ids' a' := by
   obtain ⟨o, ho⟩ := C14_conn_refines as s _ h
-  obtain ⟨o1, o2, h1, h2⟩ := run_split Obs.init pre (Ev.ret c out) _ o ho
-  have hrest := rest_run pre _ _ Obs.init o1 o o2 h1 ho h2
+  obtain ⟨o1, o2, h1, h2⟩ := run_split (Obs.initB b) pre (Ev.ret c out) _ o ho
+  have hrest := rest_run pre _ _ (Obs.initB b) o1 o o2 h1 ho h2
   obtain ⟨cl, g1, g2, _⟩ := after_return h2
   exact late_frame_once c _ o2 o cl hrest g1 g2 p1 p2 ids a rfl
 
@@ -448,7 +448,7 @@ theorem C14_late_frame_once (as : List (PConn.Action κ)) (s : PConn.State κ) (
     `context.Canceled` / `DeadlineExceeded`, that call was started and ITS context had become done before —
     never because of some other caller's context (the PREPARE runs on the connection's context). -/
 theorem C14_ctx_error_only_if_cancelled (as : List (PConn.Action κ)) (s : PConn.State κ) (pre post : List (Ev κ)) (c : Nat)
-    (h : PConn.run PConn.init as = some (s, pre ++ Ev.ret c .ctxErr :: post)) :
+    (h : PConn.run (PConn.initB b) as = some (s, pre ++ Ev.ret c .ctxErr :: post)) :
     Ev.cancel c ∈ pre ∧ ∃ b es, Ev.start c b es ∈ pre := by
   obtain ⟨o1, o2, _, hH, hs⟩ := before_event h
   simp only [Obs.step] at hs
@@ -463,7 +463,7 @@ theorem C14_ctx_error_only_if_cancelled (as : List (PConn.Action κ)) (s : PConn
 
 /-- **No schedule crashes** (the nil dereference in evictPreparedID is unreachable). -/
 theorem C14_no_crash (as : List (PConn.Action κ)) (s : PConn.State κ) (tr : List (Ev κ))
-    (h : PConn.run PConn.init as = some (s, tr)) : Ev.crash ∉ tr := by
+    (h : PConn.run (PConn.initB b) as = some (s, tr)) : Ev.crash ∉ tr := by
   intro hmem
   obtain ⟨q1, q2, hq⟩ := List.append_of_mem hmem
   rw [hq] at h
@@ -478,7 +478,7 @@ theorem C14_no_crash (as : List (PConn.Action κ)) (s : PConn.State κ) (tr : Li
     publishing caller g starting the flight's goroutine, the server's answer to the PREPARE, the completion by the
     flight's goroutine. Whether the caller's own context is done plays no role. -/
 theorem C14_no_caller_stuck (as : List (PConn.Action κ)) (s : PConn.State κ) (tr : List (Ev κ))
-    (h : PConn.run PConn.init as = some (s, tr)) (c : Nat) (cl : Caller κ) (hc : s.callers[c]? = some cl)
+    (h : PConn.run (PConn.initB b) as = some (s, tr)) (c : Nat) (cl : Caller κ) (hc : s.callers[c]? = some cl)
     (hp : cl.pc ≠ .returned ∧ cl.pc ≠ .abandoned ∧ cl.pc ≠ .lagging) :
     ∃ a, (PConn.step s a).isSome = true ∧
       (a = .lookup c ∨ a = .spawn c ∨ a = .observe c .ok ∨ a = .finish c ∨
@@ -545,7 +545,7 @@ theorem C14_no_caller_stuck (as : List (PConn.Action κ)) (s : PConn.State κ) (
     completes it (on failure removing the key first). So an in-flight entry is never left to nobody: it is completed
     (and, if it failed, removed) — every later execution that finds it gets its outcome (`C14_no_caller_stuck`). -/
 theorem C14_no_orphan_flight (as : List (PConn.Action κ)) (s : PConn.State κ) (tr : List (Ev κ))
-    (h : PConn.run PConn.init as = some (s, tr)) (f : Nat) (fl : PConn.Flight κ) (hf : s.flights[f]? = some fl)
+    (h : PConn.run (PConn.initB b) as = some (s, tr)) (f : Nat) (fl : PConn.Flight κ) (hf : s.flights[f]? = some fl)
     (hd : fl.done = false) :
     (fl.spawned = false ∧ ∃ g gl, s.callers[g]? = some gl ∧ gl.pc = .won f ∧ (PConn.step s (.spawn g)).isSome = true) ∨
     (fl.spawned = true ∧ fl.ans = none ∧ ∀ r, (PConn.step s (.srvPrepare f r)).isSome = true) ∨
@@ -564,13 +564,65 @@ theorem C14_no_orphan_flight (as : List (PConn.Action κ)) (s : PConn.State κ) 
       simp only [PConn.step, hf, ha, hd]
       cases r <;> rfl
 
+/-- **With a cache that never purges for capacity, an entry leaves the cache only because its PREPARE failed or the
+    server lost the statement.** In every schedule of the machine without capacity evictions (MaxPreparedStmts 0, or
+    at least the number of distinct keys), whenever flight f's entry of key k leaves the cache: the server had
+    answered PREPARE f of k with an error; or it had answered it PREPARED (id, n) and a call c that was started with
+    an entry of k has received an UNPREPARED answer carrying exactly that id. In particular no entry is ever removed
+    because some caller's context is done, nor while its PREPARE is still on its way — so, with
+    `C14_single_flight_conn`, #PREPARE(k) ≤ 1 + #failed PREPAREs(k) + #UNPREPARED-evictions(k). -/
+theorem C14_removal_justified (as : List (PConn.Action κ)) (s : PConn.State κ) (pre post : List (Ev κ)) (k : κ) (f : Nat)
+    (h : PConn.run (PConn.initB true) as = some (s, pre ++ Ev.rm k f :: post)) :
+    Ev.prep f k none ∈ pre ∨
+    ∃ id n c ids bt es, Ev.prep f k (some (id, n)) ∈ pre ∧ Ev.exec c ids (.unprep id) ∈ pre ∧
+      Ev.start c bt es ∈ pre ∧ hasKey es k = true := by
+  obtain ⟨o1, o2, h1, hH, hs⟩ := before_event h
+  have hst : o1.strict = true := obs_run_strict pre _ o1 h1
+  simp only [Obs.step] at hs
+  by_cases hj : o1.strict = true ∧ justified o1 k f = false
+  · rw [if_pos hj] at hs; cases hs
+  rw [if_neg hj] at hs
+  have hjt : justified o1 k f = true := by
+    cases hx : justified o1 k f with
+    | true => rfl
+    | false => exact absurd ⟨hst, hx⟩ hj
+  unfold justified at hjt
+  cases hf : o1.flights f with
+  | none => simp [hf] at hjt
+  | some fl =>
+    simp only [hf] at hjt hs
+    have hk : fl.key = k := by
+      by_cases hq : fl.key = k ∧ fl.removed = false
+      · exact hq.1
+      · rw [if_neg hq] at hs; cases hs
+    cases ha : fl.ans with
+    | none => simp [ha] at hjt
+    | some r =>
+      cases r with
+      | none =>
+        left
+        have := hH.prep f fl none hf ha
+        rw [hk] at this; exact this
+      | some p =>
+        obtain ⟨id, n⟩ := p
+        right
+        simp only [ha] at hjt
+        obtain ⟨cl, hmem, hcl⟩ := List.any_eq_true.1 hjt
+        simp only [Bool.and_eq_true, decide_eq_true_eq] at hcl
+        obtain ⟨c, hc⟩ := List.getElem?_of_mem hmem
+        obtain ⟨ids, hx⟩ := hH.await c cl _ hc hcl.1
+        obtain ⟨bt, hb⟩ := hH.start c cl hc
+        have hp := hH.prep f fl _ hf ha
+        rw [hk] at hp
+        exact ⟨id, n, c, ids, bt, cl.entries, hp, hx, hb, hcl.2⟩
+
 /-- **Every flight is completed by its own agents.** From every reachable state of every schedule and for every
     flight (cached or not): at most three further steps — the publishing caller starting the goroutine, the server
     receiving the PREPARE, the goroutine completing the flight; no step of any other caller, and no caller's context
     needs to be live — make it done, with an answer recorded. By `C14_no_orphan_flight` each of these steps is enabled
     whenever it is the next one, in whatever order the rest of the system moves. -/
 theorem C14_flight_completes (as : List (PConn.Action κ)) (s : PConn.State κ) (tr : List (Ev κ))
-    (h : PConn.run PConn.init as = some (s, tr)) (f : Nat) (fl : PConn.Flight κ) (hf : s.flights[f]? = some fl) :
+    (h : PConn.run (PConn.initB b) as = some (s, tr)) (f : Nat) (fl : PConn.Flight κ) (hf : s.flights[f]? = some fl) :
     ∃ (as' : List (PConn.Action κ)) (s' : PConn.State κ) (tr' : List (Ev κ)) (fl' : PConn.Flight κ),
       as'.length ≤ 3 ∧ (∀ a ∈ as', Agent f a) ∧ PConn.run s as' = some (s', tr') ∧
       s'.flights[f]? = some fl' ∧ fl'.done = true ∧ fl'.ans ≠ none := by
@@ -583,7 +635,7 @@ theorem C14_flight_completes (as : List (PConn.Action κ)) (s : PConn.State κ) 
     value-count error, or it goes on to its next entry / sends its frame). Together with `C14_no_orphan_flight`:
     no execution waits for ever behind an entry, whatever happened to the context of the caller that published it. -/
 theorem C14_waiter_gets_outcome (as : List (PConn.Action κ)) (s : PConn.State κ) (tr : List (Ev κ))
-    (h : PConn.run PConn.init as = some (s, tr)) (c f : Nat) (cl : Caller κ) (hc : s.callers[c]? = some cl)
+    (h : PConn.run (PConn.initB b) as = some (s, tr)) (c f : Nat) (cl : Caller κ) (hc : s.callers[c]? = some cl)
     (hpc : cl.pc = .waiting f) :
     ∃ (as' : List (PConn.Action κ)) (s' : PConn.State κ) (tr' : List (Ev κ)),
       as'.length ≤ 3 ∧ (∀ a ∈ as', Agent f a) ∧ PConn.run s as' = some (s', tr') ∧
@@ -702,6 +754,20 @@ example : (Obs.run (Obs.init : OState Nat) [.start 0 false [(7, 1)], .prep 0 7 (
 /-- … and accepts the PREPARE that arrives after the cancelled winner has returned -/
 example : (Obs.run (Obs.init : OState Nat) [.start 0 false [(7, 1)], .cancel 0, .ret 0 .ctxErr,
     .prep 0 7 (some ([1], 1))]).isSome = true := by decide
+
+/-- a cache that never purges: the entry of a flight whose PREPARE is still on its way cannot leave the cache — the
+    history in which a cancelled caller "cleans up" the in-flight entry (and the next execution prepares again) is
+    rejected by the strict specification, accepted by the lax one (where it could have been a capacity eviction) -/
+example : (Obs.run (Obs.initB true : OState Nat) [.start 0 false [(7, 1)], .start 1 false [(7, 1)], .cancel 1, .rm 7 0]).isNone = true := by decide
+example : (Obs.run (Obs.initB true : OState Nat) [.start 0 false [(7, 1)], .prep 0 7 (some ([1], 1)), .start 1 false [(7, 1)], .cancel 1,
+    .rm 7 0, .ret 1 .ctxErr]).isNone = true := by decide
+example : (Obs.run (Obs.initB false : OState Nat) [.start 0 false [(7, 1)], .prep 0 7 (some ([1], 1)), .start 1 false [(7, 1)], .cancel 1,
+    .rm 7 0, .ret 1 .ctxErr]).isSome = true := by decide
+/-- … and it accepts the two legitimate removals: the failed PREPARE, the UNPREPARED answer with the cached id -/
+example : (Obs.run (Obs.initB true : OState Nat) [.start 0 false [(7, 1)], .prep 0 7 none, .rm 7 0, .ret 0 (.prepErr 0),
+    .start 1 false [(7, 1)], .prep 1 7 (some ([1], 1)), .exec 1 [[1]] (.unprep [1]), .rm 7 1]).isSome = true := by decide
+/-- the strict machine has no capacity eviction -/
+example : (PConn.run (PConn.initB true : PConn.State Nat) [.call false [(7, 1)], .lookup 0, .evict 7]).isNone = true := by decide
 
 end Conn
 
